@@ -15,10 +15,10 @@ type chanV struct {
 	closed bool
 	elemT  types.Type
 	// rendezvous for unbuffered channels: a sender parks its value here
-	sendq []*sendReq
+	sendq       []*sendReq
 	recvWaiting int
-	timer  bool // may fire at any time (time.After / Timer.C)
-	fired  bool
+	timer       bool // may fire at any time (time.After / Timer.C)
+	fired       bool
 }
 
 type sendReq struct {
@@ -35,8 +35,14 @@ type mutexState struct {
 }
 
 type wgState struct{ n int64 }
-type onceState struct{ done bool; running bool }
-type condState struct{ waiters []*G; gen int }
+type onceState struct {
+	done    bool
+	running bool
+}
+type condState struct {
+	waiters []*G
+	gen     int
+}
 
 func (m *Machine) runnable() []*G {
 	var rs []*G
